@@ -160,11 +160,28 @@ def make_recorder():
                       [int(x) for x in np.asarray(v).reshape(-1).tolist()] if self.keep_values else None)
             return v
 
+        # A temp_seed scope is recognised by what happens, not by a name: some function saves this stream's state
+        # (`get_state`) and then seeds it -> the scope is entered; the saved state object is put back (`set_state`) -> it is
+        # left.  That covers the generator form of `temp_seed`, a class with __enter__/__exit__, and any context manager
+        # delegating to either.  (A function literally called `temp_seed` counts as before.)
+        def get_state(self, *a, **k):
+            st = np.random.RandomState.get_state(self, *a, **k)
+            f = sys._getframe(1)
+            if os.path.basename(f.f_code.co_filename) != "rng_common.py":
+                self._saved_by = (f.f_code, st)
+            return st
+
         def seed(self, *a, **k):
             fn, ln, fl = self._frame()
+            code = sys._getframe(1).f_code
+            saved = getattr(self, "_saved_by", None)
             r = super().seed(*a, **k)
-            if fn == "temp_seed":
+            if fn == "temp_seed" or (saved is not None and saved[0] is code):
                 self.depth += 1
+                if not hasattr(self, "_scopes"):
+                    self._scopes = []
+                self._scopes.append(saved[1] if saved is not None and saved[0] is code else None)
+                self._saved_by = None
                 self.log.append({"kind": "scope_seed", "post": rng_state_hash(self), "func": fn, "lineno": ln})
             elif fn != "__init__":
                 self.log.append({"kind": "seed", "method": "seed", "req": "seed", "func": fn, "lineno": ln, "file": fl,
@@ -173,8 +190,12 @@ def make_recorder():
 
         def set_state(self, *a, **k):
             fn, ln, _ = self._frame()
-            if fn == "temp_seed":
+            scopes = getattr(self, "_scopes", [])
+            restoring = bool(scopes) and scopes[-1] is not None and bool(a) and a[0] is scopes[-1]
+            if fn == "temp_seed" or restoring:
                 self.depth = max(0, self.depth - 1)
+                if scopes:
+                    scopes.pop()
             else:
                 self.log.append({"kind": "set_state", "func": fn, "lineno": ln, "in_scope": self.depth > 0})
             return super().set_state(*a, **k)
@@ -271,6 +292,8 @@ def run_call(mf, shape, acs, seed, keep_values=False, forced=None, fault=None, t
     rec = mf.rng
     rec.log = []
     rec.depth = 0
+    rec._scopes = []
+    rec._saved_by = None
     rec.keep_values = keep_values
     rec.forced = forced
     rec.fault_at = fault
